@@ -157,6 +157,69 @@ def repro_power_abs():
     return bool(bad), '; '.join(bad) or 'nested powers keep the absolute value'
 
 
-C01_REPRODUCERS = {'C01-choose-takediag-axis': repro_choose_takediag, 'C01-power-power-abs': repro_power_abs, K1: repro_k1,
+def repro_cast_bool_inflate():
+    ev = _ev()
+    b = ev.Argument('b', (ev.constant(3),), bool)
+    f = ev.astype(ev._inflate(b, ev.constant([0, 0, 1]), ev.constant(2), 0), float)
+    r = ev.eval_once(f, _optimize=False, arguments=dict(b=numpy.array([True, True, False])))
+    return (not numpy.allclose(r, [1., 0.])), f'astype(Inflate([T,T,F],[0,0,1],2), float) -> {r.tolist()} (expected [1,0])'
+
+
+C01_REPRODUCERS = {'C01-cast-bool-inflate-overlap': repro_cast_bool_inflate, 'C01-choose-takediag-axis': repro_choose_takediag, 'C01-power-power-abs': repro_power_abs, K1: repro_k1,
                    'C01-takediag-inflated-diagonal': repro_takediag_inflated_diagonal, 'C01-loopsum-take-capture': repro_loopsum_capture,
                    'C01-bool-any-all-empty-insertaxis': repro_bool_empty_insertaxis}
+
+
+# ---------------------------------------------------------------------------
+# C02
+
+def classify_c02(case, config, exc, detail):
+    return None
+
+
+def repro_assemble_scalar_index():
+    ev = _ev()
+    rng = numpy.random.default_rng(0)
+    bad = []
+    for shape in [(2, 2, 2), (2, 3, 2), (3, 3, 3)]:
+        a, b = rng.normal(size=shape), rng.normal(size=shape)
+        A = ev.Argument('a', tuple(map(ev.constant, shape)), float)
+        B = ev.Argument('b', tuple(map(ev.constant, shape)), float)
+        perm = numpy.arange(shape[1])[::-1].copy()
+        f = ev.stack([ev._inflate(A, ev.constant(perm), ev.constant(shape[1]), 1), B], len(shape))
+        ref = numpy.stack([a[:, ::-1][:, numpy.argsort(perm)][:, perm] if False else _scatter(a, perm), b], len(shape))
+        try:
+            r = ev.eval_once(f, arguments=dict(a=a, b=b))
+            if not numpy.allclose(r, ref):
+                bad.append(f'{shape}: wrong values in optimised mode')
+        except Exception as e:
+            bad.append(f'{shape}: {type(e).__name__}: {str(e)[:60]}')
+    return bool(bad), 'stack([scatter(a, perm, axis=1), b], -1): ' + ('; '.join(bad) or 'correct')
+
+
+def _scatter(a, perm):
+    out = numpy.zeros_like(a)
+    out[:, perm] = a
+    return out
+
+
+C02_REPRODUCERS = {'C02-assemble-scalar-advanced-index': repro_assemble_scalar_index}
+
+
+# ---------------------------------------------------------------------------
+# C06
+
+def classify_c06(e, problem):
+    return None
+
+
+def repro_inflate_intbounds():
+    ev = _ev()
+    a = ev.Argument('a', (ev.constant(3),), int)
+    f = ev.Inflate(ev.InRange(a, ev.constant(5)), ev.constant([0, 0, 1]), ev.constant(2))
+    lo, hi = f._intbounds
+    v = ev.eval_once(f, _simplify=False, _optimize=False, arguments=dict(a=numpy.array([4, 4, 1])))
+    return bool(v.max() > hi or v.min() < lo), f'Inflate(x in [0,4], [0,0,1], 2): announced range [{lo},{hi}], evaluates to {v.tolist()}'
+
+
+C06_REPRODUCERS = {'C06-inflate-intbounds-duplicates': repro_inflate_intbounds}
